@@ -226,7 +226,7 @@ PLANS["C03"] = dict(
              COLLS + "add", COLLS + "__getitem__", COLLS + "decref", PROTO + "_handle_pickle", BN + "__reduce_ex__",
              SCEN + "echo_returns_the_original", SCEN + "value_travels_by_copy", SCEN + "same_object_same_proxy",
              SCEN + "forged_reference_is_refused"],
-    lemmas=BOX_LEMMAS, compositions=["C04/roundtrip"], native_focus=[], design_ref="DESIGN.md section 4, C03",
+    lemmas=BOX_LEMMAS, compositions=["C04/roundtrip"], native_focus=[(BRINE + "dumpable", "default")], design_ref="DESIGN.md section 4, C03",
     assumptions=COMMON_ASSUMPTIONS + [
         "the value / reference decision is Connection._box's verified postcondition result == boxed(obj, conn) (spec/box_spec.py: "
         "by value exactly when brine.dumpable says plain - exact types only, so subclass instances travel by reference; "
